@@ -1,23 +1,448 @@
+// C07 — RPC codec round trip. Bounded-exhaustive enumeration of (method name, argument list, parameter-list
+// shape, header set, codec options on both sides) for the request direction and of (result list or error,
+// return-type shape, header set, codec options) for the response direction, for the hprose codec pair of
+// rpc/core and the JSON-RPC codec pair of rpc/codec/jsonrpc. The codecs are driven directly (no transport);
+// the reference is the values that went in, compared through gen.Canon.
 package main
 
 import (
+	"encoding/json"
 	"fmt"
-	"reflect"
+	"hash/fnv"
+	"os"
+	"sort"
+	"strings"
 	"time"
 
-	"verif/mc/gen"
+	"verif/lib/report"
+	"verif/lib/shard"
+	"verif/mc/iocase"
 )
 
-func main() {
-	a := gen.NewAlphabet()
-	for _, x := range []interface{}{[]int{}, map[string]int{}, gen.Inner{}, &gen.Inner{}, time.Time{}, ""} {
-		t := reflect.TypeOf(x)
-		for i, v := range a.Vals(t, 3) {
-			fmt.Println(t, i, gen.Canon(v))
+const ID = "C07"
+
+// job is a slice of the space: all lists that start with the given elements (-1 = no such element, -2 =
+// every continuation is enumerated inside the job), with everything else crossed inside the job.
+type job struct {
+	Lane string `json:"lane"` // req | resp | err | names | jreq | jresp | jerr | jnames
+	I1   int    `json:"i1"`
+	I2   int    `json:"i2"`
+}
+
+type result struct {
+	Cases    int64            `json:"cases"`
+	ByLane   map[string]int64 `json:"by_lane"`
+	Skipped  int64            `json:"skipped"`
+	NoValue  int64            `json:"no_value"`
+	Distinct int64            `json:"distinct"`
+	Viol     map[string]viol  `json:"viol"`
+	Count    map[string]int   `json:"count"`
+	Samples  []string         `json:"samples"`
+}
+
+var thorough bool
+
+type tally struct {
+	res  result
+	seen map[uint64]struct{}
+}
+
+func newTally() *tally {
+	return &tally{res: result{ByLane: map[string]int64{}, Viol: map[string]viol{}, Count: map[string]int{}}, seen: map[uint64]struct{}{}}
+}
+
+func (t *tally) emit(c *caseD) {
+	o := runCase(c)
+	switch {
+	case o.na:
+		return
+	case o.skipped:
+		t.res.Skipped++
+		return
+	}
+	t.res.Cases++
+	t.res.ByLane[c.Lane]++
+	if o.noValue {
+		t.res.NoValue++
+	}
+	if len(o.data) > 1 {
+		h := fnv.New64a()
+		h.Write([]byte(c.Lane))
+		h.Write(o.data)
+		t.seen[h.Sum64()] = struct{}{}
+	}
+	if o.v != nil {
+		t.res.Count[o.v.Sig]++
+		if old, ok := t.res.Viol[o.v.Sig]; !ok || o.v.Rank < old.Rank {
+			t.res.Viol[o.v.Sig] = *o.v
+		}
+	} else if len(t.res.Samples) < 1 && len(c.Vals) >= 2 && c.Hdr == hdrOne {
+		t.res.Samples = append(t.res.Samples, fmt.Sprintf("%s -> %q", c.String(), trunc(string(o.data), 120)))
+	}
+}
+
+var bools = []bool{false, true}
+
+// lists enumerates the value lists of a job: [I1, I2] and [I1, I2, x] for every active x.
+func lists(j job, act []int, f func(l []int)) {
+	switch {
+	case j.I1 < 0:
+		f(nil)
+	case j.I2 == -1:
+		f([]int{j.I1})
+	default:
+		f([]int{j.I1, j.I2})
+		for _, x := range act {
+			f([]int{j.I1, j.I2, x})
 		}
 	}
-	it := reflect.TypeOf((*interface{})(nil)).Elem()
-	for i, v := range a.Vals(it, 3) {
-		fmt.Println(it, i, gen.Canon(v))
+}
+
+func allCore(alpha []aval, l []int) bool {
+	for _, i := range l {
+		if !alpha[i].Core {
+			return false
+		}
 	}
+	return true
+}
+
+// settingsFor decides over which decoder settings a list is crossed: every list with the defaults; the
+// other 119 combinations where some destination is an interface{} (lists of <= 2 values, in the thorough
+// tier also the lists of 3 quick-tier values), and for lists of <= 1 value in every shape so that the
+// header values (always interface{} destinations) meet every combination too.
+func crossSettings(alpha []aval, l []int, ifaceDest bool) bool {
+	if ifaceDest {
+		return len(l) <= 2 || thorough && allCore(alpha, l)
+	}
+	return len(l) <= 1
+}
+
+func runJob(j job) result {
+	t := newTally()
+	hact, jact := active(hvals, thorough), active(jvals, thorough)
+	switch j.Lane {
+	case "req":
+		lists(j, hact, func(l []int) {
+			for _, shape := range reqShapes {
+				for _, cs := range bools {
+					for hdr := 0; hdr < numHdr; hdr++ {
+						t.emit(&caseD{Lane: "req", Vals: l, Shape: shape, Hdr: hdr, CS: cs})
+						if len(l) <= 1 {
+							t.emit(&caseD{Lane: "req", Vals: l, Shape: shape, Hdr: hdr, CS: cs, Svc: "jsonrpc-fallback"})
+						}
+					}
+				}
+				if !crossSettings(hvals, l, reqShapesIface[shape]) {
+					continue
+				}
+				for _, s := range allSettings[1:] {
+					for _, cs := range bools {
+						for _, hdr := range []int{hdrNone, hdrTyped} {
+							if hdr == hdrNone && !reqShapesIface[shape] {
+								continue
+							}
+							t.emit(&caseD{Lane: "req", Vals: l, Shape: shape, Hdr: hdr, CS: cs, Cfg: s})
+						}
+					}
+				}
+			}
+		})
+	case "names":
+		for _, i2 := range append([]int{-1}, active(hvals, false)...) {
+			if j.I1 < 0 && i2 >= 0 {
+				continue
+			}
+			l := []int{}
+			if j.I1 >= 0 {
+				l = append(l, j.I1)
+			}
+			if i2 >= 0 {
+				l = append(l, i2)
+			}
+			for n := 1; n < len(names); n++ {
+				for _, shape := range []string{"exact", "iface", "variadic-iface", "missing"} {
+					for _, cs := range bools {
+						for hdr := 0; hdr < numHdr; hdr++ {
+							t.emit(&caseD{Lane: "req", Vals: l, Shape: shape, Hdr: hdr, CS: cs, Name: n})
+						}
+					}
+				}
+			}
+		}
+	case "resp":
+		lists(j, hact, func(l []int) {
+			for _, shape := range respShapes {
+				for _, ss := range bools {
+					for hdr := 0; hdr < numHdr; hdr++ {
+						for _, cs := range bools {
+							for _, dbg := range bools {
+								t.emit(&caseD{Lane: "resp", Vals: l, Shape: shape, Hdr: hdr, SS: ss, CS: cs, Debug: dbg})
+							}
+						}
+						if len(l) <= 1 {
+							t.emit(&caseD{Lane: "resp", Vals: l, Shape: shape, Hdr: hdr, SS: ss, Svc: "jsonrpc-fallback"})
+						}
+					}
+				}
+				if !crossSettings(hvals, l, respShapesIface[shape]) {
+					continue
+				}
+				for _, s := range allSettings[1:] {
+					for _, ss := range bools {
+						for _, hdr := range []int{hdrNone, hdrTyped} {
+							if hdr == hdrNone && !respShapesIface[shape] {
+								continue
+							}
+							t.emit(&caseD{Lane: "resp", Vals: l, Shape: shape, Hdr: hdr, SS: ss, Cfg: s})
+						}
+					}
+				}
+			}
+		})
+	case "err":
+		for _, shape := range errShapes {
+			for _, ss := range bools {
+				for _, cs := range bools {
+					for _, dbg := range bools {
+						for hdr := 0; hdr < numHdr; hdr++ {
+							for _, s := range allSettings {
+								t.emit(&caseD{Lane: "err", Err: j.I1, Shape: shape, Hdr: hdr, SS: ss, CS: cs, Debug: dbg, Cfg: s})
+							}
+							t.emit(&caseD{Lane: "err", Err: j.I1, Shape: shape, Hdr: hdr, SS: ss, CS: cs, Debug: dbg, Svc: "jsonrpc-fallback"})
+						}
+					}
+				}
+			}
+		}
+	case "jreq":
+		lists(j, jact, func(l []int) {
+			for _, shape := range reqShapes {
+				for hdr := 0; hdr < numHdr; hdr++ {
+					t.emit(&caseD{Lane: "jreq", Vals: l, Shape: shape, Hdr: hdr})
+				}
+			}
+		})
+	case "jnames":
+		l := []int{}
+		if j.I1 >= 0 {
+			l = append(l, j.I1)
+		}
+		for n := 1; n < len(names); n++ {
+			for _, shape := range []string{"exact", "iface", "missing"} {
+				for hdr := 0; hdr < numHdr; hdr++ {
+					t.emit(&caseD{Lane: "jreq", Vals: l, Shape: shape, Hdr: hdr, Name: n})
+				}
+			}
+		}
+	case "jresp":
+		lists(j, jact, func(l []int) {
+			for _, shape := range respShapes {
+				for hdr := 0; hdr < numHdr; hdr++ {
+					t.emit(&caseD{Lane: "jresp", Vals: l, Shape: shape, Hdr: hdr})
+				}
+			}
+		})
+	case "jerr":
+		for _, shape := range errShapes {
+			for _, dbg := range bools {
+				for hdr := 0; hdr < numHdr; hdr++ {
+					t.emit(&caseD{Lane: "jerr", Err: j.I1, Shape: shape, Hdr: hdr, Debug: dbg})
+				}
+			}
+		}
+	default:
+		panic("c07: unknown job lane " + j.Lane)
+	}
+	t.res.Distinct = int64(len(t.seen))
+	return t.res
+}
+
+func makeJobs() []interface{} {
+	var jobs []interface{}
+	prefixes := func(lane string, act []int) {
+		jobs = append(jobs, job{lane, -1, -1})
+		for _, a := range act {
+			jobs = append(jobs, job{lane, a, -1})
+			for _, b := range act {
+				jobs = append(jobs, job{lane, a, b})
+			}
+		}
+	}
+	hact, jact := active(hvals, thorough), active(jvals, thorough)
+	prefixes("req", hact)
+	prefixes("resp", hact)
+	prefixes("jreq", jact)
+	prefixes("jresp", jact)
+	for i := range errCases {
+		jobs = append(jobs, job{"err", i, 0}, job{"jerr", i, 0})
+	}
+	jobs = append(jobs, job{"names", -1, -2}, job{"jnames", -1, -2})
+	for _, a := range active(hvals, false) {
+		jobs = append(jobs, job{"names", a, -2})
+	}
+	for _, a := range active(jvals, false) {
+		jobs = append(jobs, job{"jnames", a, -2})
+	}
+	return jobs
+}
+
+func setup() {
+	thorough = report.Tier() == "thorough"
+	iocase.Init()
+	buildAlphabets()
+	buildHeaders()
+}
+
+func main() {
+	setup()
+	if shard.IsWorker() {
+		shard.Serve(func(raw json.RawMessage) interface{} {
+			var j job
+			json.Unmarshal(raw, &j)
+			return runJob(j)
+		})
+	}
+	if len(os.Args) > 2 && os.Args[1] == "--replay" {
+		replay(os.Args[2])
+		return
+	}
+	if len(os.Args) > 1 && os.Args[1] == "--dump" {
+		for i, a := range hvals {
+			fmt.Println(i, a.Label, a.Core, a.Canon)
+		}
+		for i, a := range jvals {
+			fmt.Println(i, a.Label, a.Core, a.Canon)
+		}
+		return
+	}
+	run := report.New(ID, "exploration")
+	jobs := makeJobs()
+	var cases, skipped, distinct, noValue int64
+	byLane := map[string]int64{}
+	samples := report.NewSamples(16)
+	best := map[string]viol{}
+	count := map[string]int{}
+	shard.Run(jobs, shard.Options{JobTimeout: 300 * time.Second}, func(i int, raw json.RawMessage, fail *shard.Failure) {
+		j := jobs[i].(job)
+		if fail != nil {
+			sig := fmt.Sprintf("C07|process-death|lane=%s", j.Lane)
+			count[sig]++
+			if _, ok := best[sig]; !ok {
+				best[sig] = viol{Sig: sig, What: fmt.Sprintf("worker died on job %+v: %s: %s\n%s", j, fail.Kind, fail.Exit, trunc(fail.Stderr, 1500)), Job: &j}
+			}
+			return
+		}
+		var r result
+		if err := json.Unmarshal(raw, &r); err != nil {
+			run.Infra("bad worker result: " + err.Error())
+			return
+		}
+		cases += r.Cases
+		skipped += r.Skipped
+		distinct += r.Distinct
+		noValue += r.NoValue
+		for k, n := range r.ByLane {
+			byLane[k] += n
+		}
+		for _, s := range r.Samples {
+			if i%37 == 5 || strings.HasPrefix(j.Lane, "j") && i%11 == 3 {
+				samples.Add(s)
+			}
+		}
+		for sig, v := range r.Viol {
+			if old, ok := best[sig]; !ok || v.Rank < old.Rank {
+				best[sig] = v
+			}
+		}
+		for sig, n := range r.Count {
+			count[sig] += n
+		}
+	})
+	sigs := make([]string, 0, len(best))
+	for s := range best {
+		sigs = append(sigs, s)
+	}
+	sort.Strings(sigs)
+	for _, s := range sigs {
+		v := best[s]
+		sig := s
+		if v.Job == nil && !v.Case.Cfg.isDefault() {
+			sig += "|settings=" + v.Case.Cfg.String() // fails under no smaller set of non-default decoder settings
+		}
+		what := v.What
+		if v.Job == nil {
+			what += " [case: " + v.Case.String() + "; bytes " + fmt.Sprintf("%q", v.Bytes) + "]"
+		}
+		for n := 0; n < count[s]; n++ {
+			run.Violate(sig, what, v)
+		}
+	}
+	hact, jact := active(hvals, thorough), active(jvals, thorough)
+	run.Set("evaluations", cases)
+	run.Set("distinct_nontrivial", distinct)
+	run.Set("rule", "one evaluation = one (direction, method name, value list, parameter/return-type shape, header set, client Simple, service Simple, Debug, decoder settings, codec pair) encode->decode round trip compared with the values that went in; members of the product to which a shape does not apply (e.g. variadic-all for a heterogeneous list) are not counted; distinct_nontrivial counts distinct encoded messages of length > 1 per job (a job = all lists sharing their first two values in one lane), summed over jobs")
+	run.Set("samples", samples.List())
+	run.Set("exhaustive", true)
+	run.Set("evaluations_by_lane", byLane)
+	run.Set("skipped_outside_statement_under_settings", skipped)
+	run.Set("count_mismatch_cases_checked_for_no_panic_only", noValue)
+	run.Set("jobs", len(jobs))
+	run.Set("space", map[string]interface{}{
+		"hprose_value_alphabet": len(hact), "hprose_types": len(htypes), "json_value_alphabet": len(jact), "json_types": len(jtypes),
+		"list_lengths": "0..3", "request_shapes": reqShapes, "response_shapes": respShapes, "header_sets": hdrNames,
+		"method_names": len(names), "errors": len(errCases), "decoder_settings": len(allSettings),
+		"settings_crossing": "all 120 LongType x RealType x MapType x StructType x ListType combinations of the decoding side for: lists of <= 2 values in shapes with interface{} destinations (thorough: also lists of 3 quick-alphabet values), lists of <= 1 value in every shape with the typed header set, every error; defaults elsewhere",
+		"modes":             "request: client Simple x header set; response: service Simple x client Simple x Debug x header set; errors: additionally x all settings; hprose client against the jsonrpc service codec (fallback path) for lists of <= 1 value",
+	})
+	run.Assumption("scope hypothesis: argument/result lists of at most 3 values drawn from a reduced alphabet of 12 representative C01 types (9 JSON types); value-level coverage of the serializer is C01's job")
+	run.Assumption("a count mismatch between results and declared return types is only required not to panic (prefix compared, missing results are zero values as in the repository's own codec test); a single list-valued result read into several return types is ambiguous on the wire")
+	run.Assumption("values a decoder setting cannot represent in an interface{} destination are skipped with iocase.Representable (same rule as C01); a nil *struct converted to a struct parameter is skipped")
+	run.Assumption("Debug=true: a panic error's message may be followed by CRLF and the stack; every other error message must be identical")
+	run.Assumption("JSON-RPC: numbers compared as the float64 they denote; structs only towards struct-typed destinations")
+	run.Assumption("local zone fixed to America/New_York")
+	run.Finish()
+}
+
+func replay(path string) {
+	_, raw := report.LoadReplay(path)
+	var v viol
+	if err := json.Unmarshal(raw, &v); err != nil {
+		fmt.Println("replay: bad file:", err)
+		os.Exit(2)
+	}
+	if v.Job != nil {
+		// process death: run the job on a worker again
+		died := false
+		shard.Run([]interface{}{*v.Job}, shard.Options{Workers: 1, JobTimeout: 300 * time.Second}, func(i int, raw json.RawMessage, fail *shard.Failure) {
+			if fail != nil {
+				died = true
+				fmt.Printf("REPRODUCED process death on job %+v: %s %s\n%s\n", *v.Job, fail.Kind, fail.Exit, trunc(fail.Stderr, 1500))
+			}
+		})
+		if died {
+			fmt.Printf("VIOLATION property=%s replay=%s\n", ID, path)
+			os.Exit(1)
+		}
+		fmt.Println("not reproduced")
+		os.Exit(0)
+	}
+	c := v.Case
+	fmt.Println("case:", c.String())
+	o := runCase(&c)
+	fmt.Printf("bytes: %q\n", o.data)
+	switch {
+	case o.na:
+		fmt.Println("replay: the shape does not apply to this list")
+		os.Exit(2)
+	case o.skipped:
+		fmt.Println("not reproduced (case is skipped as outside the statement)")
+		os.Exit(0)
+	case o.v != nil:
+		fmt.Printf("REPRODUCED %s: %s\n", o.v.Sig, o.v.What)
+		fmt.Printf("VIOLATION property=%s replay=%s\n", ID, path)
+		os.Exit(1)
+	}
+	fmt.Println("not reproduced")
+	os.Exit(0)
 }
